@@ -75,3 +75,34 @@ Example C11_refuted_read_error_empty :
   let b := {| bc_fmt := BBin; bc_read := ReadOtherErr; bc_empty := true; bc_syntax_ok := true; bc_convs := []; bc_rest_ok := true |} in
   defects_C11 b = [C11ReadErrorEmptyBody] /\ go_bind_body b = BDispatch false /\ strict_bind_body b = BReject.
 Proof. vm_compute. repeat split; reflexivity. Qed.
+
+(* ---- the 400 document: a rejection is answered with a ValidationError, whatever the error text quotes ---- *)
+From Sebuf Require Import RejectDoc.
+From SebufProofs Require Import RejectDocFacts.
+
+Theorem C11_reject_document : forall field before token after,
+  utf8_valid before = true -> utf8_valid token = true -> utf8_valid after = true ->
+  go_reject_doc field before token after = RDValidation field.
+Proof. exact reject_doc_well_formed. Qed.
+Print Assumptions C11_reject_document.
+
+Theorem C11_reject_document_any_length : forall field before pad n unit after,
+  utf8_valid before = true -> utf8_valid pad = true -> utf8_valid unit = true -> utf8_valid after = true ->
+  well_formed_doc (go_reject_doc field before (pad ++ rep_tok n unit) after) = true.
+Proof. exact reject_doc_repeated. Qed.
+Print Assumptions C11_reject_document_any_length.
+
+(* 100 three-byte characters after a two-byte pad *)
+Example C11_reject_nonvacuous :
+  go_reject_doc (s "body") (s "failed to parse request body: unknown field ") (s "ab" ++ rep_tok 100 [ch 227; ch 129; ch 130]) (s "") = RDValidation (s "body").
+Proof. vm_compute. reflexivity. Qed.
+
+(* the known finding: a body that is not valid UTF-8 is echoed into the description; marshalling fails *)
+Example C11_refuted_invalid_utf8_echoed :
+  well_formed_doc (go_reject_doc (s "body") (s "failed to parse request body: ") [ch 255; ch 254] (s "")) = false.
+Proof. vm_compute. reflexivity. Qed.
+
+(* why the description must not be cut at a byte offset: a prefix of valid UTF-8 need not be valid *)
+Example C11_byte_prefix_not_valid :
+  utf8_valid [ch 227; ch 129; ch 130] = true /\ utf8_valid (firstn 2 [ch 227; ch 129; ch 130]) = false.
+Proof. vm_compute. split; reflexivity. Qed.
